@@ -209,7 +209,8 @@ fn one(case: &Case, front: Front, ev: &mut Ev, decode_cov: bool) {
 }
 
 pub fn check_case(case: &Case, ev: &mut Ev) {
-    let exhaustive_family = case.family.ends_with("-subsets");
+    // (families that exist because of what happens INSIDE the node cache go through every hook geometry)
+    let exhaustive_family = case.family.ends_with("-subsets") || case.family == "duplicated-wide-fans" || case.family == "cache-digest-collision";
     let big = case.kv.len() > 50_000;
     let mut fronts: Vec<Front> = vec![];
     if exhaustive_family {
